@@ -462,6 +462,16 @@ impl CompileConst for MechMap {
 // ConstElem Trait
 // ----------------------------------------------------------------------------
 
+// An element count read from a constant payload can never exceed the number of
+// bytes that are left (every element takes at least one byte); anything larger
+// is a corrupt payload and must not be used to size an allocation or a loop.
+pub fn declared_count(count: usize, available_bytes: usize) -> usize {
+  if count > available_bytes {
+    panic!("declared element count {} exceeds available bytes ({})", count, available_bytes);
+  }
+  count
+}
+
 pub trait ConstElem {
   fn write_le(&self, out: &mut Vec<u8>);
   fn from_le(bytes: &[u8]) -> Self;
@@ -658,7 +668,7 @@ macro_rules! impl_const_elem_matrix {
         let mut cursor = Cursor::new(bytes);
         let rows = cursor.read_u32::<LittleEndian>().unwrap() as usize;
         let cols = cursor.read_u32::<LittleEndian>().unwrap() as usize;
-        let mut elements: Vec<T> = Vec::with_capacity(rows * cols);
+        let mut elements: Vec<T> = Vec::with_capacity(declared_count(rows.saturating_mul(cols), bytes.len()));
 
         // Read in column-major order
         for _c in 0..cols {
@@ -698,7 +708,7 @@ where
     let mut cursor = Cursor::new(bytes);
     let rows = cursor.read_u32::<LittleEndian>().unwrap() as usize;
     let cols = cursor.read_u32::<LittleEndian>().unwrap() as usize;
-    let mut elements = Vec::with_capacity(rows * cols);
+    let mut elements = Vec::with_capacity(declared_count(rows.saturating_mul(cols), bytes.len()));
     // Read in column-major order
     for _c in 0..cols {
       for _r in 0..rows {
@@ -733,7 +743,7 @@ where
     let mut cursor = Cursor::new(bytes);
     let rows = cursor.read_u32::<LittleEndian>().unwrap() as usize;
     let cols = cursor.read_u32::<LittleEndian>().unwrap() as usize;
-    let mut elements = Vec::with_capacity(rows * cols);
+    let mut elements = Vec::with_capacity(declared_count(rows.saturating_mul(cols), bytes.len()));
     // Read in column-major order
     for _c in 0..cols {
       for _r in 0..rows {
@@ -768,7 +778,7 @@ where
     let mut cursor = Cursor::new(bytes);
     let rows = cursor.read_u32::<LittleEndian>().unwrap() as usize;
     let cols = cursor.read_u32::<LittleEndian>().unwrap() as usize;
-    let mut elements = Vec::with_capacity(rows * cols);
+    let mut elements = Vec::with_capacity(declared_count(rows.saturating_mul(cols), bytes.len()));
     // Read in column-major order
     for _c in 0..cols {
       for _r in 0..rows {
@@ -853,7 +863,7 @@ where
     let mut cursor = Cursor::new(bytes);
     let rows = cursor.read_u32::<LittleEndian>().unwrap() as usize;
     let cols = cursor.read_u32::<LittleEndian>().unwrap() as usize;
-    let mut elements = Vec::with_capacity(rows * cols);
+    let mut elements = Vec::with_capacity(declared_count(rows.saturating_mul(cols), bytes.len()));
     // Read in column-major order
     for _c in 0..cols {
       for _r in 0..rows {
@@ -1156,7 +1166,7 @@ impl ConstElem for ValueKind {
         let elem_vk = ValueKind::from_le(&bytes[cursor.position() as usize..]);
         cursor.set_position(cursor.position() + 1); // advance past elem_vk tag
         let dim_count = cursor.read_u32::<LittleEndian>().expect("read matrix dim count") as usize;
-        let mut dims = Vec::with_capacity(dim_count);
+        let mut dims = Vec::with_capacity(declared_count(dim_count, bytes.len()));
         for _ in 0..dim_count {
             dims.push(cursor.read_u32::<LittleEndian>().expect("read matrix dim") as usize);
         }
@@ -1171,7 +1181,7 @@ impl ConstElem for ValueKind {
       #[cfg(feature = "table")]
       26 => {
         let field_count = cursor.read_u32::<LittleEndian>().expect("read table fields length") as usize;
-        let mut fields = Vec::with_capacity(field_count);
+        let mut fields = Vec::with_capacity(declared_count(field_count, bytes.len()));
         for _ in 0..field_count {
           let name = String::from_le(&bytes[cursor.position() as usize..]);
           let mut buf = Vec::new();
@@ -1372,7 +1382,7 @@ impl ConstElem for MechSet {
       .read_u32::<LittleEndian>()
       .expect("read set element count") as usize;
     // 3) read each Value (advance cursor using each value's encoded length)
-    let mut set = IndexSet::with_capacity(num_elements);
+    let mut set = IndexSet::with_capacity(declared_count(num_elements, data.len()));
     for _ in 0..num_elements {
       let pos = cursor.position() as usize;
       let value = Value::from_le(&data[pos..]);
@@ -1412,7 +1422,7 @@ impl ConstElem for MechTuple {
       .read_u32::<LittleEndian>()
       .expect("read tuple element count") as usize;
     // 3) Read each element
-    let mut elements: Vec<Box<Value>> = Vec::with_capacity(num_elements);
+    let mut elements: Vec<Box<Value>> = Vec::with_capacity(declared_count(num_elements, data.len()));
     for _ in 0..num_elements {
       let pos = cursor.position() as usize;
       let value = Value::from_le(&data[pos..]);
